@@ -14,7 +14,8 @@ SPEC = {
         ('K-first(2-safety in debug)', 'first', '^(debug:|stop:)'),
         ('K-update(stop flags)', 'update', '^debug:'),
         ("_match_states(stopped entries are never expanded)", 'match_states', r'^select:'),
-        ("non-emitting search(stopped marking only under debug; only live entries continued)", 'ne_end', r'^(debug:|ne-end:only-live)')],
+        ("non-emitting search(stopped marking only under debug; only live entries continued)", 'ne_end', r'^(debug:|ne-end:only-live)'),
+        ("_build_node_path(a stopped entry is never chosen)", 'final_choice', r'live')],
     'bounded': [
         ('error-vs-debug-level', suites.case_C19, 1500, 25000, RULE + '; ' + 'non-trivial = at least one candidate was cut off', '')],
 }
